@@ -98,6 +98,32 @@ func init() {
 // countFaultIOs runs the workload once without failure (in this process) to learn how many I/O
 // calls it issues.
 func countFaultIOs(sc Scenario) int {
+	// the dry run drives the real code inside the check process: a call that does not return must not hang the
+	// check (it is reported like a panic, by Finish), and a panic is recovered
+	ch := make(chan int, 1)
+	go func() {
+		defer func() {
+			if p := recover(); p != nil {
+				buildPanicMu.Lock()
+				BuildPanics = append(BuildPanics, fmt.Sprintf("fault-free dry run of workload %s: %v", sc.Profile, p))
+				buildPanicMu.Unlock()
+				ch <- 0
+			}
+		}()
+		ch <- countFaultIOs1(sc)
+	}()
+	select {
+	case n := <-ch:
+		return n
+	case <-time.After(3 * time.Minute):
+		buildPanicMu.Lock()
+		BuildPanics = append(BuildPanics, fmt.Sprintf("fault-free dry run of a workload (page size %d, profile %s) did not finish within 3 minutes: a call of the real code does not return", sc.Opts.PageSize, sc.Profile))
+		buildPanicMu.Unlock()
+		return 0
+	}
+}
+
+func countFaultIOs1(sc Scenario) int {
 	dir, err := os.MkdirTemp("", "verif-cnt-")
 	if err != nil {
 		return 0
